@@ -35,6 +35,14 @@ def _t(ncol, n, tag="r"):
                       "values": [f"{tag}{i}c{j}" if j % 2 == 0 else i * 3 + j for i in range(n)]} for j in range(ncol)]}
 
 
+_LONG = " alpha be gamma de eps zeta eta th iota kap alpha be gamma"      # 0.978 of a 3.125 in column at 8.5 pt, 1.037 at 9 pt
+
+
+def _wide(n):
+    return {"cols": [{"name": "@N0", "dtype": "str", "values": [f"r{i}c0" + _LONG for i in range(n)]},
+                     {"name": "@N1", "dtype": "str", "values": [f"r{i}c1" for i in range(n)]}]}
+
+
 def _g(vals, n2=None):
     return {"cols": [{"name": "@N0", "dtype": "str", "values": vals},
                      {"name": "@N1", "dtype": "str", "values": [f"r{i}" for i in range(len(vals))]},
@@ -69,9 +77,15 @@ ARCH = [
     {"kind": "multi", "header_layout": "nested", "sections": [{"df": _t(2, 2), "body": {"col_rel_width": [1, 2]}, "headers": "default"},
                                                               {"df": _t(3, 2, "s"), "body": {"col_rel_width": [1, 1, 2]}, "headers": "default"}]},   # 14 multi, explicit widths, no footnote
     {"kind": "table", "sections": [{"df": _t(3, 5, "w"), "body": {"col_rel_width": [2, 1, 1]}, "headers": "default"}]},          # 15 3 col explicit widths
+    # 16 / 17: the same long texts at 8.5 pt (one line each, one page) and at 9 pt (two lines each, two pages): measurement caches
+    {"kind": "table", "page": {"nrow": 8}, "sections": [{"df": _wide(6), "body": {"text_font_size": 8.5}, "headers": [{"text": ["@H0.0", "@H0.1"]}]}]},
+    {"kind": "table", "page": {"nrow": 8}, "sections": [{"df": _wide(6), "body": {"text_font_size": 9}, "headers": [{"text": ["@H0.0", "@H0.1"]}]}]},
+    # 18: per-column border vector and one data row per page: in-place border updates would alias the caller's matrix
+    {"kind": "table", "page": {"nrow": 2}, "sections": [{"df": _t(2, 3, "b"), "body": {"border_bottom": ["single", "dashed"], "border_top": ["", "dotted"]},
+                                                        "headers": [{"text": ["@H0.0", "@H0.1"]}]}]},
 ]
 RAISES = {6}
-PLAIN_BODY = {0, 9, 12, 10, 15}         # single tables whose body/header specs reference no columns
+PLAIN_BODY = {0, 9, 12, 10, 15, 18}         # single tables whose body/header specs reference no columns
 SHARE_SETS = [["page"], ["body"], ["footnote"], ["title"], ["header"], ["page", "footnote", "source", "title"], ["body", "header"]]
 COMPONENT_ARG = {"page": "rtf_page", "title": "rtf_title", "footnote": "rtf_footnote", "source": "rtf_source"}
 
